@@ -53,3 +53,5 @@ def run(ctx):
                         exempt={"TreeSequence.get_population": "deprecated alias for the population *of a node*; unrelated to the "
                                                                "low-level get_population(id) row getter"})
     lib_mem.c_lints(ctx, ctx.program(), scopes.lib_scope("C08"))
+    from . import lib_kind5
+    lib_kind5.variant_samples_pair(ctx, ctx.program())
